@@ -15,7 +15,9 @@ for d in sys.argv[1:]:
     d = d.rstrip("/")
     res = {"seed": os.path.basename(d)}
     sh("git checkout -q -- . && git clean -fdq", WT)
-    sh("git checkout -q --detach $(git -C /repo rev-parse HEAD)", WT)
+    base = os.environ.get("SEED_BASE") or subprocess.run("git -C /repo rev-parse HEAD", shell=True, capture_output=True, text=True).stdout.strip()
+    sh(f"git checkout -q --detach {base}", WT)
+    res["base_commit"] = base
     run = open(f"{d}/run.txt").read()
     m = re.search(r"<worktree>/(\S+\.rs)", run)
     dest = m.group(1)
